@@ -1,12 +1,12 @@
 SPECIFICATION Spec
 CONSTANTS
-  Policy = "naive"
-  Cfg <- CfgNaive2S
+  Policy = "priority"
+  Cfg <- CfgPr1D7
   Shapes <- ShapesA
   NPipes = 2
-  MaxTick = 14
-  Prios = {"B"}
-  ArrTicks = {0,1,2}
+  MaxTick = 16
+  Prios = {"B","Q"}
+  ArrTicks = {0,1,2,3}
 INVARIANT C08_NoCrash
 INVARIANT C08_Admissible
 INVARIANT C01_ParentsDone
